@@ -13,6 +13,7 @@ predicates judge the implementation's own observations.
 from __future__ import annotations
 
 import copy
+import importlib
 import json
 import random
 
@@ -92,11 +93,90 @@ def drain_copy(pol):
 
 
 MS = 1_000_000
+WARM0 = 2000      # operation numbers of the gets issued by a CacheWarmer
 
 
-def fmt_res(kind, r):
+# ---------------------------------------------------------------------------- value domain
+# The model treats a written value as an opaque identity (`put k v`, v unique per script).  What the
+# real cache is handed for identity v is chosen by the case (`case["vals"][str(v)]`): the int v
+# itself, or a *falsy but not None* object — 0, 0.0, "", False, empty containers, user objects whose
+# __bool__/__len__ say "empty".  A cache must treat all of them as present values.
+# Immutable falsy constants are shared objects, so each kind is used at most once per script;
+# the container / object kinds are created fresh per value and can repeat.  Decoding is by identity.
+FALSY_ONCE = ["zero", "fzero", "estr", "false", "etuple", "ebytes", "efrozenset", "czero"]
+FALSY_FRESH = ["elist", "edict", "eset", "ebytearray", "falsyobj", "emptyobj"]
+
+
+class _FalsyObj:
+    """a user value whose truth value is False (e.g. a result wrapper for 'nothing found')"""
+    __slots__ = ("tag",)
+
+    def __init__(self, tag):
+        self.tag = tag
+
+    def __bool__(self):
+        return False
+
+
+class _EmptyObj:
+    """a user collection that is currently empty"""
+    __slots__ = ("tag",)
+
+    def __init__(self, tag):
+        self.tag = tag
+
+    def __len__(self):
+        return 0
+
+
+def make_value(v, kind):
+    if kind == "int":
+        return v
+    return {"zero": lambda: 0, "fzero": lambda: float("0.0"), "estr": lambda: "", "false": lambda: False,
+            "etuple": tuple, "ebytes": bytes, "efrozenset": frozenset, "czero": lambda: complex(0),
+            "elist": list, "edict": dict, "eset": set, "ebytearray": bytearray,
+            "falsyobj": lambda: _FalsyObj(v), "emptyobj": lambda: _EmptyObj(v)}[kind]()
+
+
+class Values:
+    def __init__(self, case):
+        self.kinds = case.get("vals") or {}
+        self.objs = {}
+
+    def enc(self, v):
+        if v not in self.objs:
+            self.objs[v] = make_value(v, self.kinds.get(str(v), "int"))
+        return self.objs[v]
+
+    def dec(self, obj):
+        if obj is None:
+            return "None"
+        for v, o in self.objs.items():
+            if o is obj:
+                return str(v)
+        return f"?{type(obj).__name__}"
+
+
+def pick_vals(rng, values):
+    """assign a python value kind to each written value identity"""
+    p = rng.choice([0.0, 0.0, 0.3, 0.6, 1.0])
+    once = list(FALSY_ONCE)
+    rng.shuffle(once)
+    vals = {}
+    for v in values:
+        if rng.random() < p:
+            if once and rng.random() < 0.6:
+                vals[str(v)] = once.pop()
+            else:
+                vals[str(v)] = rng.choice(FALSY_FRESH)
+    return vals
+
+
+def fmt_res(kind, r, values=None):
     if kind == "flush":
         return f"n={r}"
+    if kind == "get":
+        return values.dec(r) if values is not None else ("None" if r is None else str(r))
     if r is None:
         return "None"
     if r is True:
@@ -118,6 +198,7 @@ def run_store_sim(case, repo_cls=None):
     ops = case["ops"]
     out, sched = [], []
     holder = {}
+    vt = Values(case)
 
     def clock():
         return float(holder["cl"].now.nanoseconds // MS)
@@ -134,7 +215,7 @@ def run_store_sim(case, repo_cls=None):
         c = sorted(int(k[1:]) for k in cache.get_cached_keys())
         d = sorted(int(k[1:]) for k in cache.get_dirty_keys())
         p = sorted(drain_copy(pol))
-        b = sorted((int(k[1:]), backing.get_sync(k)) for k in backing.keys())
+        b = sorted((int(k[1:]), vt.dec(backing.get_sync(k))) for k in backing.keys())
         j = lambda xs: " ".join(map(str, xs))
         line = f"adv {i} | C {j(c)} | D {j(d)} | P {j(p)} | B {' '.join(f'{k}={v}' for k, v in b)}"
         out.append(" ".join(line.split()))
@@ -163,7 +244,7 @@ def run_store_sim(case, repo_cls=None):
             if kind == "get":
                 r = yield from traced(cache.get(K(op[2])))
             elif kind == "put":
-                r = yield from traced(cache.put(K(op[2]), op[3]))
+                r = yield from traced(cache.put(K(op[2]), vt.enc(op[3])))
             elif kind == "del":
                 r = yield from traced(cache.delete(K(op[2])))
             elif kind == "flush":
@@ -179,15 +260,63 @@ def run_store_sim(case, repo_cls=None):
                 snap(i)
             else:
                 raise ValueError(kind)
-            out.append(f"ret {i} {fmt_res(kind, r)}")
+            out.append(f"ret {i} {fmt_res(kind, r, vt)}")
 
     cl = Client("client")
     holder["cl"] = cl
     end = max([op[0] for op in ops] + [0]) + 1000 * MS
-    sim = Simulation(entities=[backing, cache, cl], end_time=Instant(end))
+    entities = [backing, cache, cl]
+    warm = case.get("warm")
+    warmer = None
+    if warm:
+        # CacheWarmer (cache_warming.py) is one more client of the cache: it calls cache.get(key) for
+        # each key and re-yields the delays.  It is handed a proxy whose get() is the real
+        # CachedStore.get wrapped so that every segment is logged like a client operation
+        # (operation numbers WARM0, WARM0+1, … in the order the warmer issues them).
+        from happysimulator.components.datastore import CacheWarmer
+
+        class Proxy:
+            n = 0
+
+            def get(self, key):
+                i = WARM0 + Proxy.n
+                Proxy.n += 1
+                if len(sched) > 400:
+                    raise RuntimeError("watchdog: too many deliveries")
+
+                def traced():
+                    gen = cache.get(key)
+                    try:
+                        sched.append(f"adv {i} {warmer.now.nanoseconds}")
+                        y = next(gen)
+                        while True:
+                            snap(i)
+                            sent = yield y
+                            sched.append(f"adv {i} {warmer.now.nanoseconds}")
+                            y = gen.send(sent)
+                    except StopIteration as e:
+                        snap(i)
+                        out.append(f"ret {i} {fmt_res('get', e.value, vt)}")
+                        return e.value
+
+                return traced()
+
+        keys = [K(k) for k in warm["keys"]]
+        warmer = CacheWarmer("warmer", Proxy(), (lambda: list(keys)) if warm.get("callable") else keys,
+                             warmup_rate=float(warm["rate"]))
+        warmer.start_warming()
+        entities.append(warmer)
+        end = max(end, warm["t"] + 1000 * MS)
+    sim = Simulation(entities=entities, end_time=Instant(end))
     for i, op in enumerate(ops):
         sim.schedule(Event(time=Instant(op[0]), event_type="op", target=cl, context={"metadata": {"i": i}}))
+    if warm:
+        sim.schedule(Event(time=Instant(warm["t"]), event_type="cache_warm", target=warmer, context={"action": "warm_next"}))
     sim.run()
+    if warm:
+        st = warmer.stats
+        out.append(f"warm n={st.keys_to_warm} warmed={st.keys_warmed} failed={st.keys_failed} "
+                   f"complete={1 if warmer.is_complete and warmer.progress == 1.0 else 0}")
     return out, sched
 
 
@@ -202,6 +331,7 @@ def run_soft_sim(case):
     ops = case["ops"]
     out, sched, judge = [], [], []
     cur = [None]          # op whose segment is executing (for attributing backing reads)
+    vt = Values(case)
 
     class LoggedKV(KVStore):
         """the user-supplied backing store; reports every read that returned a value"""
@@ -209,8 +339,8 @@ def run_soft_sim(case):
         def get(self, key):
             v = yield from super().get(key)
             if v is not None:
-                out.append(f"src {int(key[1:])} {v}")
-                judge.append(f"src {int(key[1:])} {v} {self.now.nanoseconds}")
+                out.append(f"src {int(key[1:])} {vt.dec(v)}")
+                judge.append(f"src {int(key[1:])} {vt.dec(v)} {self.now.nanoseconds}")
             return v
 
     backing = LoggedKV("backing", read_latency=case["rl"] / 1e9, write_latency=case["wl"] / 1e9)
@@ -219,7 +349,7 @@ def run_soft_sim(case):
         c = sorted(int(k[1:]) for k in cache.get_cached_keys())
         universe = [K(k) for k in range(NKEYS)]
         f = sorted(int(k[1:]) for k in universe if cache.is_refreshing(k))
-        b = sorted((int(k[1:]), backing.get_sync(k)) for k in backing.keys())
+        b = sorted((int(k[1:]), vt.dec(backing.get_sync(k))) for k in backing.keys())
         j = lambda xs: " ".join(map(str, xs))
         line = f"adv {i} | C {j(c)} | F {j(f)} | B {' '.join(f'{k}={v}' for k, v in b)}"
         out.append(" ".join(line.split()))
@@ -263,11 +393,11 @@ def run_soft_sim(case):
             t0 = self.now.nanoseconds
             if kind == "get":
                 r = yield from traced(cache.get(K(op[2])), i, lambda: self.now)
-                judge.append(f"get {op[2]} {t0} {self.now.nanoseconds} {fmt_res(kind, r)}")
-                out.append(f"ret {i} {fmt_res(kind, r)}")
+                judge.append(f"get {op[2]} {t0} {self.now.nanoseconds} {fmt_res(kind, r, vt)}")
+                out.append(f"ret {i} {fmt_res(kind, r, vt)}")
                 return
             if kind == "put":
-                yield from traced(cache.put(K(op[2]), op[3]), i, lambda: self.now)
+                yield from traced(cache.put(K(op[2]), vt.enc(op[3])), i, lambda: self.now)
                 judge.append(f"src {op[2]} {op[3]} {self.now.nanoseconds}")
             else:
                 sched.append(f"adv {i} {self.now.nanoseconds}")
@@ -276,7 +406,7 @@ def run_soft_sim(case):
                 elif kind == "invall":
                     cache.invalidate_all()
                 elif kind == "bput":
-                    backing.put_sync(K(op[2]), op[3])
+                    backing.put_sync(K(op[2]), vt.enc(op[3]))
                 elif kind == "bdel":
                     backing.delete_sync(K(op[2]))
                 else:
@@ -297,6 +427,24 @@ def K(k):
     return f"k{k}"
 
 
+# ---------------------------------------------------------------------------- extension families
+# Components with their own model files live in separate modules (hv/props/c16_<x>.py, Lean
+# HappyModel/C16/<X>*.lean behind `<X>.handle?` in the driver).  A module provides
+#   FAMILY, SLOTS (how many of every 20 generated cases it wants), generate(rng, tier),
+#   run_impl(case), model_block(case, variant, impl_out), judge_block(case, impl_out),
+#   nontrivial_key(case, impl_out), THEOREMS, RULE, TRUSTED, ASSUMPTIONS, HYPOTHESES, PARTIAL
+#   and optionally shrink(case), mutate(case, rng), compare_view(case, impl_out).
+EXT = {}
+for _name in ("c16_tier", "c16_page", "c16_wpol"):
+    try:
+        _m = importlib.import_module(f"hv.props.{_name}")
+    except ModuleNotFoundError as _e:
+        if _e.name != f"hv.props.{_name}":
+            raise
+        continue
+    EXT[_m.FAMILY] = _m      # ENABLED = False (module under construction) only keeps it out of generation
+
+
 class C16(core.Property):
     id = "C16"
     driver = "drv-c16"
@@ -311,7 +459,10 @@ class C16(core.Property):
             "ttl boundary (and stepping back), RNG draws given as priority lists; family store: real Simulation, CachedStore(capacity 1–3) "
             "over KVStore with read/write/delete latencies 1–8 ms, 3–16 get/put/delete/invalidate/invalidate_all/flush operations issued "
             "sequentially, at 0–6 ms spacing or exactly one latency apart (overlaps and ties), all nine policies × write-through/write-back, "
-            "then flush and a read of every key; family softttl: real Simulation, SoftTTLCache(soft 0–20 ms, hard soft+0–30 ms, capacity "
+            "written values are opaque identities mapped per case to the int itself or to a falsy-but-not-None python object (0, 0.0, '', False, (), b'', frozenset(), 0j, fresh [] / {} / set() / bytearray(), "
+            "user objects with __bool__ False or __len__ 0; none / 30 % / 60 % / all of the values of a script), for every policy × write mode; "
+            "30 % of the store cases add a CacheWarmer (0–6 keys with repeats and absent keys, 1–10 ms apart, list or callable provider) started at 0, on/next to an operation or right after an invalidate_all, running next to the client traffic; "
+            "then flush and a read of every key; family softttl (same value domain): real Simulation, SoftTTLCache(soft 0–20 ms, hard soft+0–30 ms, capacity "
             "none/1/2), gets at entry age soft/hard ±1 ns and ± read latency, backing store rewritten/deleted behind the cache; "
             "non-trivial: policy case with ≥1 successful evict, store/softttl case with >4 transcript lines; distinct = distinct case content")
     trusted_base = [
@@ -320,13 +471,16 @@ class C16(core.Property):
         "policy tracked-key set is read by draining a deepcopy through the public evict()",
         "engine-based families: the segment schedule (which operation advanced at each delivery, with its time) is taken from the real run and fed to the model; the engine's ordering is C01/C02's business",
         "SoftTTLCache.handle_event is wrapped by a subclass to log refresh segments; flush iteration order is read with get_dirty_keys() right before flush()",
+        "written values are decoded from what the cache returns by object identity (the adapter keeps the object it passed to put())",
+        "CacheWarmer is handed a proxy whose get() is the real CachedStore.get wrapped to log its segments",
     ]
     assumptions = [
         "read-after-write is judged as a regular register over segment order: a get may return the value of any write to its key that is not entirely followed by another write which completed before the get was issued (a delete writes 'absent'); put values are unique per script",
         "lost-write is judged at quiescence against the backing store's contents, exempting keys still reported dirty",
         "soft-TTL age is judged black-box: the returned value must have been read from the backing store (seen by the user-supplied KVStore subclass) or written through the cache less than hard_ttl before the get was issued; the Lean theorem is about the entry's cached_at at the moment the serve decision is taken",
         "TTLEviction clock: integer-valued float milliseconds (exact); SoftTTL TTLs passed as Duration nanoseconds (no float comparison anywhere)",
-        "multi_tier_cache.py, cache_warming.py, write_policies.py (not used by CachedStore) and infrastructure/page_cache.py are not modelled",
+        "value domain: None is not used as a written value — KVStore.get / CachedStore.get document None as 'not found', so a stored None cannot be told from absence through the API; every other falsy value is in the domain",
+        "cache_warming.py: the warmer's gets are ordinary operations of the store model (numbered from 2000); CacheWarmer.warmup_latency is accepted but never used by the code and is not judged; warmup_time_seconds (float statistic) is not compared",
     ]
     variants = ["repaired", "current"]
     hypotheses = [
@@ -342,6 +496,15 @@ class C16(core.Property):
 
     # ------------------------------------------------------------------ generation
     def generate(self, rng: random.Random, i: int, tier: str) -> dict:
+        # of every 20 cases the last few go to the extension families, the rest to the core ones
+        slot, base = i % 20, 20
+        for m in EXT.values():
+            if not getattr(m, "ENABLED", True):
+                continue
+            base -= m.SLOTS
+            if slot >= base:
+                return m.generate(rng, tier)
+        i = (i // 20) * base + slot
         pol = POLICIES[(i // 3) % len(POLICIES)]
         if i % 3 == 0:
             return self.gen_policy(rng, tier, pol)
@@ -399,7 +562,9 @@ class C16(core.Property):
                 ops.append([t, "invall"])
                 cached.clear()
         ops.sort(key=lambda o: o[0])
-        return {"family": "softttl", "soft": soft, "hard": hard, "cap": cap, "rl": rl, "wl": wl, "cl": cl, "ops": ops}
+        vals = pick_vals(rng, [o[3] for o in ops if o[1] in ("put", "bput")])
+        return {"family": "softttl", "soft": soft, "hard": hard, "cap": cap, "rl": rl, "wl": wl, "cl": cl, "ops": ops,
+                "vals": vals}
 
     def gen_store(self, rng, tier, name, wt):
         nk = rng.choice([2, 3, 3, 4])
@@ -452,8 +617,22 @@ class C16(core.Property):
                 op[3] = v
                 v += 1
         picks = [rng.sample(range(NKEYS), NKEYS) for _ in range(3)]
-        return {"family": "store", "policy": name, "arg": arg, "cap": cap, "wt": int(wt), "lat": lat,
-                "picks": picks, "ops": ops}
+        vals = pick_vals(rng, range(1, v))
+        case = {"family": "store", "policy": name, "arg": arg, "cap": cap, "wt": int(wt), "lat": lat,
+                "picks": picks, "ops": ops, "vals": vals}
+        if rng.random() < 0.3:
+            # a CacheWarmer runs next to the client traffic (cold start after an invalidate_all, or any time):
+            # starts on / next to an operation, keys with repeats and keys the store does not have
+            tw = rng.choice([0, rng.choice(ops)[0], rng.choice(ops)[0] + rng.choice([0, 100_000, MS, lat["rl"]])])
+            if rng.random() < 0.4:
+                inv = [o for o in ops if o[1] == "invall"]
+                if inv:
+                    tw = inv[0][0] + rng.choice([0, 0, 100_000, MS])
+            written = sorted({o[2] for o in ops if o[1] == "put"}) or [0]
+            case["warm"] = {"t": max(0, tw), "keys": [rng.choice(written) if rng.random() < 0.6 else rng.randrange(min(nk + 1, NKEYS))
+                                              for _ in range(rng.choice([0, 1, 2, 3, 4, 6]))],
+                            "rate": rng.choice([1000, 500, 200, 100]), "callable": int(rng.random() < 0.3)}
+        return case
 
     def gen_policy(self, rng, tier, name):
         ln = rng.choice([3, 6, 10, 16, 24, 40, 60])
@@ -523,6 +702,8 @@ class C16(core.Property):
     # ------------------------------------------------------------------ implementation
     def run_impl(self, case):
         fam = case["family"]
+        if fam in EXT:
+            return EXT[fam].run_impl(case)
         if fam == "policy":
             return self.impl_policy(case)
         if fam == "store":
@@ -536,6 +717,8 @@ class C16(core.Property):
     def compare_view(self, case, impl_out):
         """lines starting with '#' carry the segment schedule of the real run (input of the model,
         GUIDE rule 8) and judge-only observations (times); they are not part of the comparison"""
+        if case.get("family") in EXT and hasattr(EXT[case["family"]], "compare_view"):
+            return EXT[case["family"]].compare_view(case, impl_out)
         return [l for l in impl_out if not l.startswith("#")]
 
     def impl_policy(self, case):
@@ -576,6 +759,10 @@ class C16(core.Property):
 
     def model_block_from_impl(self, case, variant, impl_out):
         fam = case["family"]
+        if fam in EXT:
+            if impl_out is None:
+                impl_out = self.run_impl(case)
+            return EXT[fam].model_block(case, variant, impl_out)
         if fam == "policy":
             return (f"policy {case['policy']} {case['arg']}", self._pol_lines(case))
         if impl_out is None:
@@ -594,6 +781,10 @@ class C16(core.Property):
         body = ["pick " + " ".join(map(str, p)) for p in case["picks"]]
         for i, op in enumerate(case["ops"]):
             body.append(f"op {i} " + " ".join(map(str, op[1:])))
+        if case.get("warm"):
+            for jx, k in enumerate(case["warm"]["keys"]):
+                body.append(f"op {WARM0 + jx} get {k}")
+            body.append(f"warm {len(case['warm']['keys'])}")
         return body
 
     def model_postprocess(self, case, out):
@@ -603,6 +794,8 @@ class C16(core.Property):
         if impl_out and impl_out[0].startswith("IMPL-"):
             return None
         fam = case["family"]
+        if fam in EXT:
+            return EXT[fam].judge_block(case, impl_out)
         if fam == "policy":
             lines = self._pol_lines(case)
             if len(lines) != len(impl_out):
@@ -619,6 +812,8 @@ class C16(core.Property):
             last_b = ""
             k = 0
             impl_out = self.compare_view(case, impl_out)
+            warmobs = [l for l in impl_out if l.startswith("warm ")]
+            impl_out = [l for l in impl_out if not l.startswith("warm ")]
             while k < len(impl_out):
                 l = impl_out[k]
                 if not l.startswith("adv "):
@@ -632,11 +827,14 @@ class C16(core.Property):
                 body.append("obs" + left[3:] + " | R " + res)
                 k += 1
             body.append("fin " + last_b)
+            body += ["warmobs " + l[5:] for l in warmobs]
             return (f"judge-store {case['policy']} {case['arg']} {case['cap']} {case['wt']}", body)
         return None
 
     def nontrivial_key(self, case, impl_out):
         fam = case["family"]
+        if fam in EXT:
+            return EXT[fam].nontrivial_key(case, impl_out)
         if fam == "policy":
             ev = sum(1 for o in impl_out if o.startswith("r ") and not o.startswith("r -"))
             if ev >= 1:
@@ -650,6 +848,9 @@ class C16(core.Property):
         return json.dumps(case, sort_keys=True)
 
     def shrink(self, case):
+        if case.get("family") in EXT and hasattr(EXT[case["family"]], "shrink"):
+            yield from EXT[case["family"]].shrink(case)
+            return
         key = "ops"
         xs = case[key]
         n = len(xs)
@@ -663,6 +864,8 @@ class C16(core.Property):
             step //= 2
 
     def mutate(self, case, rng):
+        if case.get("family") in EXT and hasattr(EXT[case["family"]], "mutate"):
+            return EXT[case["family"]].mutate(case, rng)
         xs = [list(x) for x in case["ops"]]
         if not xs:
             return case
@@ -703,5 +906,12 @@ THEOREMS = [
     "HappyModel.C16.soft_ttl_age_le_hard",
     "HappyModel.C16.soft_ttl_expired_served_current",
 ]
+for _m in EXT.values():
+    THEOREMS = THEOREMS + list(_m.THEOREMS)
+    C16.rule = C16.rule + "; " + _m.RULE
+    C16.trusted_base = C16.trusted_base + list(_m.TRUSTED)
+    C16.assumptions = C16.assumptions + list(_m.ASSUMPTIONS)
+    C16.hypotheses = C16.hypotheses + list(_m.HYPOTHESES)
+    C16.partial_theorems = {**C16.partial_theorems, **_m.PARTIAL}
 C16.theorems = THEOREMS
 PROPERTY = C16()
